@@ -1,6 +1,507 @@
-//! Property C16 — correspondence / expectation run (see DESIGN.md §5, C16).
+//! Property C16 — the public algebraic helpers satisfy their defining identities:
+//! (a) `LinearCombination` operators, (b) `evaluate_query_set`, (c) `SuccinctCheckPolynomial`.
+//! Every case runs the real library code, checks the identity on the implementation itself
+//! (expectation) and compares the outcome with the Lean model (correspondence).
+use crate::common::*;
+use crate::wire::{self, Req, Val};
 use crate::Ctx;
+use ark_bls12_381::Fr;
+use ark_ff::{Field, One, UniformRand, Zero};
+use ark_poly::univariate::DensePolynomial;
+use ark_poly_commit::ipa_pc::SuccinctCheckPolynomial;
+use ark_poly_commit::{
+    evaluate_query_set, LCTerm, LabeledPolynomial, LinearCombination, QuerySet,
+};
+use std::collections::{BTreeMap, BTreeSet};
+
+/// small pool, so that labels repeat inside one combination (the code must not merge them);
+/// contains the empty label, a prefix pair and a multi-byte label
+const POOL: [&str; 6] = ["p", "q", "pq", "", "w_0", "\u{3b6}"];
+
+fn coeff(rng: &mut Rng) -> Fr {
+    match range(rng, 0, 7) {
+        0 => Fr::zero(),
+        1 => Fr::one(),
+        2 => -Fr::one(),
+        3 => Fr::from(range(rng, 2, 9) as u64),
+        _ => Fr::rand(rng),
+    }
+}
+
+fn term(rng: &mut Rng) -> LCTerm {
+    if range(rng, 0, 4) == 0 {
+        LCTerm::One
+    } else {
+        LCTerm::PolyLabel(POOL[range(rng, 0, POOL.len() - 1)].to_string())
+    }
+}
+
+fn terms(rng: &mut Rng, max: usize) -> Vec<(Fr, LCTerm)> {
+    let n = range(rng, 0, max);
+    (0..n).map(|_| (coeff(rng), term(rng))).collect()
+}
+
+/// an operand built through one of the public constructors
+fn operand(rng: &mut Rng, name: &str, max: usize) -> LinearCombination<Fr> {
+    match range(rng, 0, 3) {
+        0 => {
+            // `new` with `&str` labels (no constant term possible this way)
+            let n = range(rng, 0, max);
+            let ts: Vec<(Fr, &str)> = (0..n)
+                .map(|_| (coeff(rng), POOL[range(rng, 0, POOL.len() - 1)]))
+                .collect();
+            LinearCombination::new(name, ts)
+        }
+        1 => {
+            // `empty` + `push`
+            let mut lc = LinearCombination::empty(name);
+            for t in terms(rng, max) {
+                lc.push(t);
+            }
+            lc
+        }
+        _ => LinearCombination::new(name, terms(rng, max)),
+    }
+}
+
+fn w_term_label(t: &LCTerm) -> Val {
+    match t {
+        LCTerm::One => Val::None,
+        LCTerm::PolyLabel(l) => Val::Some(Box::new(wire::label(l))),
+    }
+}
+fn w_terms(ts: &[(Fr, LCTerm)]) -> Val {
+    Val::L(ts
+        .iter()
+        .map(|(c, t)| Val::L(vec![wire::fe(c), w_term_label(t)]))
+        .collect())
+}
+
+/// the meaning of a term list under an assignment (`One ↦ 1`), computed by the harness
+fn value_of(ts: &[(Fr, LCTerm)], sigma: &BTreeMap<String, Fr>) -> Fr {
+    let mut acc = Fr::zero();
+    for (c, t) in ts {
+        let v = match t {
+            LCTerm::One => Fr::one(),
+            LCTerm::PolyLabel(l) => *sigma.get(l).unwrap_or(&Fr::zero()),
+        };
+        acc += *c * v;
+    }
+    acc
+}
+
+fn show_terms(ts: &[(Fr, LCTerm)]) -> String {
+    ts.iter()
+        .map(|(c, t)| match t {
+            LCTerm::One => format!("{}*1", wire::fe(c)),
+            LCTerm::PolyLabel(l) => format!("{}*{:?}", wire::fe(c), l),
+        })
+        .collect::<Vec<_>>()
+        .join(" + ")
+}
+
+fn lc_cases(ctx: &mut Ctx) {
+    let n = ctx.n(300, 3000);
+    for i in 0..n {
+        let id = format!("C16/lc/{}", i);
+        if !ctx.selected(&id) {
+            continue;
+        }
+        let mut rng = rng_for(ctx.seed, "C16/lc", i as u64);
+        let sigma: BTreeMap<String, Fr> =
+            POOL.iter().map(|l| (l.to_string(), Fr::rand(&mut rng))).collect();
+        let mut a = operand(&mut rng, "acc", 3);
+        let init = a.terms.clone();
+        let n_ops = range(&mut rng, 0, 12);
+        let mut w_ops: Vec<Val> = vec![];
+        let mut trace: Vec<String> = vec![format!("init: {}", show_terms(&init))];
+        let mut expected = value_of(&a.terms, &sigma);
+        let mut kinds = BTreeSet::new();
+        let mut bad: Option<String> = None;
+        for step in 0..n_ops {
+            let before_terms = a.terms.clone();
+            let before = value_of(&a.terms, &sigma);
+            let kind = range(&mut rng, 0, 8);
+            kinds.insert(kind);
+            let c = coeff(&mut rng);
+            // the operand: a fresh combination, or (kind 8) a snapshot of the accumulator itself
+            let b = if kind == 8 { a.clone() } else { operand(&mut rng, "b", 4) };
+            let bv = value_of(&b.terms, &sigma);
+            let (what, want, w) = match kind {
+                0 => {
+                    a += (c, &b);
+                    ("+= (c, lc)", before + c * bv, Val::L(vec![wire::nat(0), wire::fe(&c), w_terms(&b.terms)]))
+                }
+                1 => {
+                    a -= (c, &b);
+                    ("-= (c, lc)", before - c * bv, Val::L(vec![wire::nat(1), wire::fe(&c), w_terms(&b.terms)]))
+                }
+                2 => {
+                    a += &b;
+                    ("+= lc", before + bv, Val::L(vec![wire::nat(2), w_terms(&b.terms)]))
+                }
+                3 => {
+                    a -= &b;
+                    ("-= lc", before - bv, Val::L(vec![wire::nat(3), w_terms(&b.terms)]))
+                }
+                4 => {
+                    a += c;
+                    ("+= const", before + c, Val::L(vec![wire::nat(4), wire::fe(&c)]))
+                }
+                5 => {
+                    a -= c;
+                    ("-= const", before - c, Val::L(vec![wire::nat(5), wire::fe(&c)]))
+                }
+                6 => {
+                    a *= c;
+                    ("*= const", before * c, Val::L(vec![wire::nat(6), wire::fe(&c)]))
+                }
+                7 => {
+                    let t = term(&mut rng);
+                    let tv = value_of(&[(Fr::one(), t.clone())], &sigma);
+                    a.push((c, t.clone()));
+                    ("push", before + c * tv, Val::L(vec![wire::nat(7), wire::fe(&c), w_term_label(&t)]))
+                }
+                _ => {
+                    // self-referential use through a clone: a -= (c, &a.clone())
+                    a -= (c, &b);
+                    ("-= (c, self)", before - c * bv, Val::L(vec![wire::nat(1), wire::fe(&c), w_terms(&b.terms)]))
+                }
+            };
+            ctx.rep.count(&format!("lc/op {}", what));
+            w_ops.push(w);
+            trace.push(format!(
+                "step {}: {} c={} operand=[{}]",
+                step,
+                what,
+                wire::fe(&c),
+                show_terms(&b.terms)
+            ));
+            let after = value_of(&a.terms, &sigma);
+            if after != want && bad.is_none() {
+                bad = Some(format!(
+                    "step {} `{}`: value {} but operands give {} (before: [{}])",
+                    step,
+                    what,
+                    wire::fe(&after),
+                    wire::fe(&want),
+                    show_terms(&before_terms)
+                ));
+            }
+            // nothing but `*=` may touch the existing terms
+            if kind != 6
+                && (a.terms.len() < before_terms.len() || a.terms[..before_terms.len()] != before_terms[..])
+                && bad.is_none()
+            {
+                bad = Some(format!("step {} `{}` changed existing terms", step, what));
+            }
+            expected = want;
+        }
+        let fin = value_of(&a.terms, &sigma);
+        if a.label() != "acc" || a.is_empty() != a.terms.is_empty() || a.len() != a.terms.len() {
+            bad.get_or_insert(format!("label / is_empty / deref inconsistent: {:?}", a.label()));
+        }
+        let replay = format!(
+            "# LinearCombination operators\n# case {}\n# sigma: {}\n# {}\n# result: {}\n",
+            id,
+            sigma
+                .iter()
+                .map(|(l, v)| format!("{:?}={}", l, wire::fe(v)))
+                .collect::<Vec<_>>()
+                .join(" "),
+            trace.join("\n# "),
+            show_terms(&a.terms)
+        );
+        if let Some(b) = bad {
+            ctx.rep.expect_fail(&id, "lc/operator-changes-meaning", &b, replay.clone());
+        }
+        if fin != expected {
+            ctx.rep.expect_fail(
+                &id,
+                "lc/sequence-changes-meaning",
+                "value of the result differs from the same arithmetic on the operands' values",
+                replay,
+            );
+        }
+        let w_sigma = Val::L(
+            sigma
+                .iter()
+                .map(|(l, v)| Val::L(vec![wire::label(l), wire::fe(v)]))
+                .collect(),
+        );
+        let coeffs: Vec<Fr> = a.terms.iter().map(|(c, _)| *c).collect();
+        let labels = Val::L(a.terms.iter().map(|(_, t)| w_term_label(t)).collect());
+        ctx.ses.ask(
+            &id,
+            Req::new("c16.lc")
+                .arg("init", w_terms(&init))
+                .arg("ops", Val::L(w_ops))
+                .arg("sigma", w_sigma),
+            ImplOutcome::Ok(vec![
+                ("coeffs".into(), Expect::Fes(coeffs)),
+                ("labels".into(), Expect::Raw(labels)),
+                ("value".into(), Expect::Fe(fin)),
+                ("spec".into(), Expect::Fe(expected)),
+            ]),
+        );
+        let mut labels_seen = BTreeSet::new();
+        let mut repeated = false;
+        for (_, t) in &a.terms {
+            repeated |= !labels_seen.insert(t.clone());
+        }
+        ctx.rep.count(if repeated { "lc/repeated-label" } else { "lc/no-repeated-label" });
+        ctx.rep.case(
+            &format!("lc ops={} terms={} kinds={:?}", n_ops, a.terms.len(), kinds),
+            if n_ops >= 2 {
+                Some(format!("lc/{}/{:?}/{}", n_ops, kinds, a.terms.len()))
+            } else {
+                None
+            },
+        );
+    }
+    ctx.flush_model("C16-lc");
+}
+
+fn horner(cs: &[Fr], z: Fr) -> Fr {
+    let mut acc = Fr::zero();
+    for c in cs.iter().rev() {
+        acc = acc * z + *c;
+    }
+    acc
+}
+
+fn point(rng: &mut Rng) -> Fr {
+    match range(rng, 0, 5) {
+        0 => Fr::zero(),
+        1 => Fr::one(),
+        2 => -Fr::one(),
+        _ => Fr::rand(rng),
+    }
+}
+
+fn qs_cases(ctx: &mut Ctx) {
+    let n = ctx.n(150, 1500);
+    for i in 0..n {
+        let id = format!("C16/qs/{}", i);
+        if !ctx.selected(&id) {
+            continue;
+        }
+        let mut rng = rng_for(ctx.seed, "C16/qs", i as u64);
+        // polynomials: labels from the pool; now and then a label is used twice
+        let np = range(&mut rng, 1, 5);
+        let dup = range(&mut rng, 0, 5) == 0;
+        let mut polys: Vec<LabeledPolynomial<Fr, DensePolynomial<Fr>>> = vec![];
+        let mut used: Vec<usize> = vec![];
+        for _ in 0..np {
+            let li = loop {
+                let li = range(&mut rng, 0, POOL.len() - 1);
+                if dup || !used.contains(&li) {
+                    break li;
+                }
+            };
+            used.push(li);
+            let d = range(&mut rng, 0, 6);
+            let cs: Vec<Fr> = (0..=d).map(|_| coeff(&mut rng)).collect();
+            polys.push(LabeledPolynomial::new(
+                POOL[li].to_string(),
+                DensePolynomial { coeffs: cs },
+                None,
+                None,
+            ));
+        }
+        // shared points with point labels; the same point may carry two labels
+        let npt = range(&mut rng, 1, 4);
+        let pts: Vec<(String, Fr)> = (0..npt)
+            .map(|j| (format!("z{}", j % 3), point(&mut rng)))
+            .collect();
+        let unknown = range(&mut rng, 0, 9) == 0;
+        let mut qs: QuerySet<Fr> = BTreeSet::new();
+        let nq = range(&mut rng, 0, 8);
+        for _ in 0..nq {
+            let l = POOL[used[range(&mut rng, 0, used.len() - 1)]].to_string();
+            let (pl, pt) = pts[range(&mut rng, 0, pts.len() - 1)].clone();
+            qs.insert((l, (pl, pt)));
+        }
+        if unknown {
+            let (pl, pt) = pts[0].clone();
+            qs.insert(("missing".to_string(), (pl, pt)));
+        }
+        let out = guarded(|| evaluate_query_set(polys.iter(), &qs));
+        // the polynomial registered under a label: the last one (BTreeMap::from_iter)
+        let registered: BTreeMap<String, &LabeledPolynomial<Fr, DensePolynomial<Fr>>> =
+            polys.iter().map(|p| (p.label().clone(), p)).collect();
+        let w_polys = Val::L(
+            polys
+                .iter()
+                .map(|p| Val::L(vec![wire::label(p.label()), wire::fes(&p.polynomial().coeffs)]))
+                .collect(),
+        );
+        let w_qs = Val::L(
+            qs.iter()
+                .map(|(l, (pl, pt))| Val::L(vec![wire::label(l), wire::label(pl), wire::fe(pt)]))
+                .collect(),
+        );
+        let replay = format!(
+            "# evaluate_query_set\n# case {}\nc16.qs polys={} qs={}\n",
+            id, w_polys, w_qs
+        );
+        let outcome = match &out {
+            Err(e) => {
+                if !unknown {
+                    ctx.rep.expect_fail(
+                        &id,
+                        "qs/panic-on-known-labels",
+                        &format!("evaluate_query_set panicked although every label is known: {}", e),
+                        replay.clone(),
+                    );
+                }
+                ImplOutcome::Refuse("abort".into())
+            }
+            Ok(evals) => {
+                if unknown {
+                    ctx.rep.expect_fail(
+                        &id,
+                        "qs/unknown-label-accepted",
+                        "evaluate_query_set returned although a queried label has no polynomial",
+                        replay.clone(),
+                    );
+                }
+                let keys: BTreeSet<(String, Fr)> =
+                    qs.iter().map(|(l, (_, pt))| (l.clone(), *pt)).collect();
+                let got: BTreeSet<(String, Fr)> = evals.keys().cloned().collect();
+                if keys != got {
+                    ctx.rep.expect_fail(
+                        &id,
+                        "qs/keys-differ",
+                        &format!("result has {} keys, query set has {} distinct (label, point)", got.len(), keys.len()),
+                        replay.clone(),
+                    );
+                }
+                for (l, (_, pt)) in &qs {
+                    let direct = registered.get(l).map(|p| horner(&p.polynomial().coeffs, *pt));
+                    if evals.get(&(l.clone(), *pt)).cloned() != direct {
+                        ctx.rep.expect_fail(
+                            &id,
+                            "qs/wrong-evaluation",
+                            &format!("entry ({:?}, {}) is not the polynomial's evaluation", l, wire::fe(pt)),
+                            replay.clone(),
+                        );
+                        break;
+                    }
+                }
+                ImplOutcome::Ok(vec![
+                    (
+                        "labels".into(),
+                        Expect::Raw(Val::L(evals.keys().map(|(l, _)| wire::label(l)).collect())),
+                    ),
+                    ("points".into(), Expect::Fes(evals.keys().map(|(_, p)| *p).collect())),
+                    ("vals".into(), Expect::Fes(evals.values().cloned().collect())),
+                ])
+            }
+        };
+        ctx.ses.ask(
+            &id,
+            Req::new("c16.qs").arg("polys", w_polys).arg("qs", w_qs),
+            outcome,
+        );
+        ctx.rep.count(if unknown { "qs/unknown-label" } else { "qs/known-labels" });
+        if dup {
+            ctx.rep.count("qs/duplicate-poly-labels-allowed");
+        }
+        ctx.rep.case(
+            &format!("query set polys={} points={} queries={} unknown={}", np, npt, qs.len(), unknown),
+            if qs.len() >= 2 {
+                Some(format!("qs/{}/{}/{}/{}", np, npt, qs.len(), unknown))
+            } else {
+                None
+            },
+        );
+    }
+    ctx.flush_model("C16-qs");
+}
+
+fn succinct_cases(ctx: &mut Ctx) {
+    let per_len = ctx.n(12, 120);
+    for k in 0..=10usize {
+        for j in 0..per_len {
+            let id = format!("C16/succinct/{}/{}", k, j);
+            if !ctx.selected(&id) {
+                continue;
+            }
+            let mut rng = rng_for(ctx.seed, "C16/succinct", (k * 1000 + j) as u64);
+            let special = j % 4 == 0;
+            let us: Vec<Fr> = (0..k)
+                .map(|_| if special { coeff(&mut rng) } else { Fr::rand(&mut rng) })
+                .collect();
+            let z = if j % 3 == 0 { point(&mut rng) } else { Fr::rand(&mut rng) };
+            let scp = SuccinctCheckPolynomial(us.clone());
+            let coeffs = scp.compute_coeffs();
+            let v = scp.evaluate(z);
+            let h = horner(&coeffs, z);
+            // the product form, written independently: u_i pairs with z^(2^(k-i)), i = 1..k
+            let mut prod = Fr::one();
+            for (idx, u) in us.iter().enumerate() {
+                let mut zp = z;
+                for _ in 0..(k - 1 - idx) {
+                    zp = zp.square();
+                }
+                prod *= Fr::one() + *u * zp;
+            }
+            let replay = format!(
+                "# SuccinctCheckPolynomial\n# case {}\nc16.succinct us={} z={}\n# implementation: len={} evaluate={} horner={}\n",
+                id,
+                wire::fes(&us),
+                wire::fe(&z),
+                coeffs.len(),
+                wire::fe(&v),
+                wire::fe(&h)
+            );
+            if coeffs.len() != 1usize << k {
+                ctx.rep.expect_fail(
+                    &id,
+                    "succinct/length",
+                    &format!("compute_coeffs returned {} coefficients for {} challenges", coeffs.len(), k),
+                    replay.clone(),
+                );
+            }
+            if v != h {
+                ctx.rep.expect_fail(
+                    &id,
+                    "succinct/evaluate-differs-from-coeffs",
+                    "evaluate(z) != Horner(compute_coeffs(), z)",
+                    replay.clone(),
+                );
+            }
+            if v != prod {
+                ctx.rep.expect_fail(
+                    &id,
+                    "succinct/product-form",
+                    "evaluate(z) != prod (1 + u_i z^(2^(k-i)))",
+                    replay.clone(),
+                );
+            }
+            ctx.ses.ask(
+                &id,
+                Req::new("c16.succinct").arg("us", wire::fes(&us)).arg("z", wire::fe(&z)),
+                ImplOutcome::Ok(vec![
+                    ("coeffs".into(), Expect::Fes(coeffs.clone())),
+                    ("len".into(), Expect::Nat(coeffs.len())),
+                    ("value".into(), Expect::Fe(v)),
+                    ("horner".into(), Expect::Fe(h)),
+                ]),
+            );
+            ctx.rep.count(&format!("succinct/k={}", k));
+            ctx.rep.case(
+                &format!("succinct k={} special={} len={}", k, special, coeffs.len()),
+                if k >= 1 { Some(format!("succinct/{}/{}", k, j)) } else { None },
+            );
+        }
+    }
+    ctx.flush_model("C16-succinct");
+}
 
 pub fn run(ctx: &mut Ctx) {
-    let _ = ctx;
+    lc_cases(ctx);
+    qs_cases(ctx);
+    succinct_cases(ctx);
 }
